@@ -19,7 +19,7 @@ for pid in ids:
         "evidence_file": "/verif/evidence/%s.json" % pid,
         "replay_cmd_template": "./check replay {path}",
         "engine": "lean4-proof+cosim",
-        "level_claimed": {"category": "proof", "text": t["text"], "design_ref": t.get("design_ref", "DESIGN.md §6 " + pid)},
+        "level_claimed": {"category": t.get("category", "proof"), "text": t["text"], "design_ref": t.get("design_ref", "DESIGN.md §6 " + pid)},
         "level_note": t["note"],
         "technique": t["technique"],
     })
